@@ -2,10 +2,11 @@ import HexProofs.Framework.Gen.RSI
 import HexProofs.Framework.Gen.ATR
 import HexProofs.Framework.Gen.KC
 import HexProofs.Framework.Gen.BBands
+import HexProofs.Framework.Gen.Supertrend
 /-
 All trees with a proved row-major spec, under one predicate: the leaf kinds (`Covered`), the
-data-series kinds VWAP, STDEV, RSI, ATR (prior TR helper), KC (prior ATR tree + EMA), STDEVTHRES (prior STDEV data helper) and
-BBANDS (prior STDEV data helper + SMA).
+data-series kinds VWAP, STDEV, RSI, ATR (prior TR helper), KC (prior ATR tree + EMA), STDEVTHRES (prior STDEV data helper),
+BBANDS (prior STDEV data helper + SMA) and Supertrend (prior ATR tree + HLA, own data series).
 -/
 namespace Hex
 set_option linter.unusedSectionVars false
@@ -24,6 +25,8 @@ inductive CoveredTree (name : String) : Kind F → Prop
       CoveredTree name (.stdevthres p input m)
   | bbands (p : Int) (input : String) : 1 ≤ p → BbNames name → AttrInput input →
       CoveredTree name (.bbands p input)
+  | supertrend (p : Int) (input : String) (m : Num F) : 1 ≤ p → StNames name →
+      CoveredTree name (.supertrend p input m)
 
 /-- kinds for which `calculate_index(i)` is exactly one row step at every index (for a tree with
 a sub-indicator it is not: at index 0 the sub falls back to a full `calculate()`) -/
@@ -32,6 +35,7 @@ def indexStepKind : Kind F → Bool
   | .kc _ _ _ => false
   | .stdevthres _ _ _ => false
   | .bbands _ _ => false
+  | .supertrend _ _ _ => false
   | _ => true
 
 theorem CoveredTree.spec {name : String} {k : Kind F} (h : CoveredTree name k) (round : Nat) :
@@ -54,6 +58,8 @@ theorem CoveredTree.spec {name : String} {k : Kind F} (h : CoveredTree name k) (
     exact ⟨thresTree name round p input m hp hn hin, fun h => by cases h⟩
   | bbands p input hp hn hin =>
     exact ⟨bbTree name round p input hp hn hin, fun h => by cases h⟩
+  | supertrend p input m hp hn =>
+    exact ⟨stTree name round p input m hp hn, fun h => by cases h⟩
 
 /-- the manager spec of a configuration: base timeframe, timeframe, timeframe + fill -/
 def mgrSpecOf (F : Type) [PyF F] (tf : Option Int) (htf : ∀ t, tf = some t → 0 < t) (fill : Bool) : MgrSpec F :=
